@@ -19,16 +19,17 @@ import (
 // ---------------------------------------------------------------- C14: print / parse / print / evaluate
 
 type c14case struct {
-	K     string `json:"k"`               // "path" | "eq"
-	Cell  string `json:"cell"`            // the generator's coordinates (fragment kinds, key class, position / operator triple)
-	Fr    []Frag `json:"fr,omitempty"`    // path: fragments after the first
-	Root  string `json:"root,omitempty"`  // path: "$", "@" or "" (relative)
-	Ast   *AST   `json:"ast,omitempty"`   // eq
-	Elem  *Abs   `json:"elem,omitempty"`  // eq: the element the script is matched against
-	Wrap  int    `json:"wrap,omitempty"`  // eq: 1 = the tree of interest is ast.l (an arithmetic tree compared with a constant)
-	Pair  bool   `json:"pair,omitempty"`  // path: evaluate on the document of the rune-class pair keys
-	Alt   bool   `json:"alt,omitempty"`   // txt: write the regex operator in its other spelling (~=)
-	Items []Item `json:"items,omitempty"` // txt: the script text as items (the TLA+ side derives the intended tree from them)
+	K        string `json:"k"`                  // "path" | "eq"
+	Cell     string `json:"cell"`               // the generator's coordinates (fragment kinds, key class, position / operator triple)
+	Fr       []Frag `json:"fr,omitempty"`       // path: fragments after the first
+	Root     string `json:"root,omitempty"`     // path: "$", "@" or "" (relative)
+	Ast      *AST   `json:"ast,omitempty"`      // eq
+	Elem     *Abs   `json:"elem,omitempty"`     // eq: the element the script is matched against
+	Wrap     int    `json:"wrap,omitempty"`     // eq: 1 = the tree of interest is ast.l (an arithmetic tree compared with a constant)
+	AllForms bool   `json:"allforms,omitempty"` // txt: run every parse entry point (else the three principal ones)
+	Pair     bool   `json:"pair,omitempty"`     // path: evaluate on the document of the rune-class pair keys
+	Alt      bool   `json:"alt,omitempty"`      // txt: write the regex operator in its other spelling (~=)
+	Items    []Item `json:"items,omitempty"`    // txt: the script text as items (the TLA+ side derives the intended tree from them)
 }
 
 // Item of a script text: an operand atom (constant), an operator, a ! marker or a parenthesised group.
@@ -125,6 +126,70 @@ func runTxt(c *c14case) []*c14event {
 			return &parsed{sc.String, func() bool { return sc.Match(elem) }, func() any { return shapeOf(sc) }}, nil
 		}},
 	}
+	if c.AllForms {
+		// every other entry point of the two text forms; the Must variants panic on an error
+		guard := func(f func()) (err error) {
+			defer func() {
+				if r := recover(); r != nil {
+					err = fmt.Errorf("%v", r)
+				}
+			}()
+			f()
+			return nil
+		}
+		exprParsed := func(y jp.Expr) *parsed {
+			return &parsed{y.String, func() bool { return len(y.Get([]any{elem})) == 1 }, func() any { return filterShape(y[len(y)-1]) }}
+		}
+		parsers = append(parsers, []struct {
+			form string
+			src  string
+			p    func(s string) (*parsed, error)
+		}{
+			{"MustParseString.filter", "$[?(" + text + ")]", func(s string) (*parsed, error) {
+				var y jp.Expr
+				if err := guard(func() { y = jp.MustParseString(s) }); err != nil {
+					return nil, err
+				}
+				return exprParsed(y), nil
+			}},
+			{"Parse.filter", "$[?(" + text + ")]", func(s string) (*parsed, error) {
+				y, err := jp.Parse([]byte(s))
+				if err != nil {
+					return nil, err
+				}
+				return exprParsed(y), nil
+			}},
+			{"MustNewFilter", "[?(" + text + ")]", func(s string) (*parsed, error) {
+				var f *jp.Filter
+				if err := guard(func() { f = jp.MustNewFilter(s) }); err != nil {
+					return nil, err
+				}
+				return &parsed{f.String, func() bool { return len(jp.Expr{jp.Root('$'), f}.Get([]any{elem})) == 1 }, func() any { return shapeOf(&f.Script) }}, nil
+			}},
+			{"MustNewScript", "(" + text + ")", func(s string) (*parsed, error) {
+				var sc *jp.Script
+				if err := guard(func() { sc = jp.MustNewScript(s) }); err != nil {
+					return nil, err
+				}
+				return &parsed{sc.String, func() bool { return sc.Match(elem) }, func() any { return shapeOf(sc) }}, nil
+			}},
+			{"MustParseEquation", "(" + text + ")", func(s string) (*parsed, error) {
+				var e *jp.Equation
+				if err := guard(func() { e = jp.MustParseEquation(s) }); err != nil {
+					return nil, err
+				}
+				return &parsed{e.String, func() bool { return e.Script().Match(elem) }, func() any { return shapeOf(e.Script()) }}, nil
+			}},
+		}...)
+	}
+	// the reference entry point of each kind: all entry points of a text form must read the same text alike
+	refOf := map[string]string{"MustParseString.filter": "ParseString.filter", "Parse.filter": "ParseString.filter", "NewFilter": "ParseString.filter",
+		"MustNewFilter": "ParseString.filter", "MustNewScript": "NewScript", "MustParseEquation": "NewScript"}
+	type refRes struct {
+		pt string
+		mo int
+	}
+	refs := map[string]refRes{}
 	var evs []*c14event
 	for _, ps := range parsers {
 		ev := &c14event{K: "txt", Cell: c.Cell, Form: ps.form, Elem: c.Elem, Mo: -1, Mr: -1, Case: c, S1: []int{}, S2: []int{}, Eo: []string{}, Er: []string{}, Eos: []string{}, Ers: []string{}, To: noShape, Tr: noShape}
@@ -139,6 +204,12 @@ func runTxt(c *c14case) []*c14event {
 		ev.S1 = ints(s1)
 		ev.To = p1.shape()
 		ev.Mo = match(p1.eval)
+		ptb, _ := json.Marshal(ev.To)
+		ev.Pt = string(ptb)
+		refs[ps.form] = refRes{ev.Pt, ev.Mo}
+		if rf, ok := refs[refOf[ps.form]]; ok {
+			ev.Pref, ev.Mref = rf.pt, rf.mo
+		}
 		ev.Eo = []string{fmt.Sprint(ev.Mo)}
 		ev.Eos = ev.Eo
 		if perr != "" {
@@ -172,6 +243,9 @@ type c14event struct {
 	Elem *Abs     `json:"elem,omitempty"`
 	Mo   int      `json:"mo"`
 	Mr   int      `json:"mr"`
+	Pt   string   `json:"pt"`   // txt: canonical text of the structure this entry point parsed
+	Pref string   `json:"pref"` // txt: the same through the reference entry point of the kind (jp.ParseString / jp.NewScript); "" = this is the reference
+	Mref int      `json:"mref"` // txt: the evaluation through the reference entry point
 	Same bool     `json:"same"` // the re-parsed expression is structurally identical to the original (reflect.DeepEqual)
 	Eos  []string `json:"eos"`  // distinct results of evaluating the original several times (Get may depend on map order)
 	Ers  []string `json:"ers"`  // the same for the re-parsed expression
@@ -445,7 +519,14 @@ func execC14() {
 // ---------------------------------------------------------------- generation
 func genC14(tier string, n int, seed int64) {
 	wr := bufio.NewWriterSize(os.Stdout, 1<<20)
+	ntxt := 0
 	emit := func(c *c14case) {
+		if c.K == "txt" { // every fourth text case also goes through the Must... / []byte entry points
+			ntxt++
+			if ntxt%4 == 0 {
+				c.AllForms = true
+			}
+		}
 		b, err := json.Marshal(c)
 		if err != nil {
 			panic(err)
@@ -505,6 +586,25 @@ func genC14(tier string, n int, seed int64) {
 				}
 			}
 		}
+	}
+	// ---- the int64 boundaries in every integer position (index, slice start / end / step, union member)
+	bigInts := []struct {
+		n string
+		v int
+	}{{"maxint", math.MaxInt64}, {"maxint-7", math.MaxInt64 - 7}, {"maxint-8", math.MaxInt64 - 8}, {"minint", math.MinInt64}, {"minint+7", math.MinInt64 + 7},
+		{"2^31", 1 << 31}, {"-2^31", -(1 << 31)}, {"2^53", 1 << 53}, {"-2^53", -(1 << 53)}}
+	for _, bi := range bigInts {
+		frs := []fr{{"nth(" + bi.n + ")", Frag{F: "nth", I: bi.v}},
+			{"slice(end " + bi.n + ")", Frag{F: "slice", S: []int{2, bi.v}}}, {"slice(start " + bi.n + ")", Frag{F: "slice", S: []int{bi.v}}},
+			{"slice(step " + bi.n + ")", Frag{F: "slice", S: []int{0, 5, bi.v}}}, {"slice(all " + bi.n + ")", Frag{F: "slice", S: []int{bi.v, bi.v, bi.v}}},
+			{"union(" + bi.n + ")", Frag{F: "union", U: []UItem{{I: 0}, {I: bi.v}}}}, {"union(key," + bi.n + ")", Frag{F: "union", U: []UItem{{Is: true, K: ints("a")}, {I: bi.v}}}}}
+		for _, f := range frs {
+			emit(&c14case{K: "path", Cell: f.cell + " pos=only root=$", Root: "$", Fr: []Frag{f.f}})
+			emit(&c14case{K: "path", Cell: f.cell + " pos=last prev=child(plain)", Root: "$", Fr: []Frag{{F: "child", K: ints("a")}, f.f}})
+		}
+		ia := absOf(int64(bi.v))
+		emit(&c14case{K: "eq", Cell: "const(int " + bi.n + ") ==", Ast: &AST{Op: "==", L: pth("@"), R: &AST{Op: "const", V: ia}}, Elem: ia})
+		emit(&c14case{K: "eq", Cell: "const(int " + bi.n + ") left", Ast: &AST{Op: "<", L: &AST{Op: "const", V: ia}, R: pth("@")}, Elem: ia})
 	}
 	// ---- every special rune class directly followed by every other (both orders) at the start, in the middle, at the end
 	// and as the whole key: child keys, union members (String and BracketString) and string constants in scripts
@@ -699,6 +799,22 @@ func genC14(tier string, n int, seed int64) {
 				emit(&c14case{K: "txt", Cell: "text const(rx " + p + ")", Alt: alt, Elem: el,
 					Items: []Item{{K: "atom", T: pth("@")}, {K: "op", O: "=~"}, {K: "atom", T: rxc}}})
 			}
+		}
+	}
+	// ---- scripts that are a bare path, a bare constant, a negated bare path (with and without a group): through EVERY parse
+	// entry point; elements where the member is true / false / a number / null / absent
+	bareElems := []any{map[string]any{"a": true}, map[string]any{"a": false}, map[string]any{"a": int64(1)}, map[string]any{"a": nil}, map[string]any{}}
+	pa := Item{K: "atom", T: pth("@", "a")}
+	bareShapes := []struct {
+		n  string
+		it []Item
+	}{{"path", []Item{pa}}, {"group(path)", []Item{{K: "grp", G: []Item{pa}}}}, {"not path", []Item{{K: "not"}, pa}}, {"not group(path)", []Item{{K: "not"}, {K: "grp", G: []Item{pa}}}},
+		{"const true", []Item{{K: "atom", T: bval(true)}}}, {"const false", []Item{{K: "atom", T: bval(false)}}}, {"const 1", []Item{{K: "atom", T: ival(1)}}},
+		{"const str", []Item{{K: "atom", T: &AST{Op: "const", V: absOf("x")}}}}, {"const null", []Item{{K: "atom", T: &AST{Op: "const", V: &Abs{T: "null"}}}}},
+		{"root path", []Item{{K: "atom", T: pth("$", "a")}}}}
+	for _, bs := range bareShapes {
+		for i, be := range bareElems {
+			emit(&c14case{K: "txt", AllForms: true, Cell: fmt.Sprintf("text bare %s elem%d", bs.n, i), Elem: absOf(be), Items: bs.it})
 		}
 	}
 	// right- and left-nested operands of EQUAL precedence, as text (built trees: the triples above): w P (x Q y), (x Q y) P w
